@@ -74,6 +74,10 @@ Proof.
   cbn [registered]. rewrite N.eqb_refl. cbn [app]. eexists. reflexivity.
 Qed.
 
+Lemma all_ids_root n v pl kids :
+  exists rest, all_ids (El n (Some v) pl kids) [] = (v, []) :: rest.
+Proof. cbn [all_ids app]. eexists. reflexivity. Qed.
+
 Lemma with_id_cons_same v p rest : with_id v ((v, p) :: rest) = (v, p) :: with_id v rest.
 Proof. unfold with_id. cbn [filter fst]. rewrite str_eqb_refl. reflexivity. Qed.
 
@@ -92,10 +96,10 @@ Proof.
   intros H. unfold precheck in H.
   destruct v as [|c0 v0] eqn:Ev; [discriminate|]. rewrite <- Ev in *.
   split; [rewrite Ev; discriminate|].
-  destruct (registered_root nm v pl kids) as [rest Hr]. rewrite Hr in H.
+  destruct (all_ids_root nm v pl kids) as [rest Hr]. rewrite Hr in H.
   rewrite with_id_cons_same in H.
   destruct (with_id v rest) eqn:Ew; [|discriminate].
-  cbn [subtree_at] in H.
+  cbn [subtree_at] in H. rewrite N.eqb_refl in H. cbn [andb] in H.
   destruct (first_sig (El nm (Some v) pl kids)) as [[|k [|k2 p2]]|] eqn:Ef; try discriminate.
   apply andb_prop in H as [Hc Hn].
   apply Nat.eqb_eq in Hc.
@@ -329,7 +333,7 @@ Qed.
 Lemma enveloped_ok_inv t nm i :
   enveloped_ok t nm i = true -> exists v, i = Some v /\ precheck t nm (Some v) = true.
 Proof.
-  unfold enveloped_ok. intros H. apply andb_prop in H as [Hp Hc].
+  unfold enveloped_ok. intros Hp.
   destruct i as [v|]; [|discriminate]. exists v. split; [reflexivity|exact Hp].
 Qed.
 
